@@ -184,8 +184,6 @@ func c13Main(r *run.Runner) {
 		"(b) for every expression slot (70 positions: every expression-carrying operator, alone and followed/preceded by every other operator, nested join right-hand sides, let values) x every wrapper (13 nesting contexts) x every rule (built-in arities 0..4, $left/$right outside on, open identifiers in let values, unknown join kind, non-integer row counts, no / several tabular statements) the program with exactly one planted violation must fail and its unplanted twin must compile; " +
 		"every grammar-corpus program that breaks no rule must compile; non-trivial = Compile was reached with a program that parses; distinct by construction"
 	r.Assume = []string{"rule list is the one in the property statement", "$left/$right as table or alias names and render property values are not expression references"}
-	b1 := tokenSweeps(r, 3, 4, c13Either)
-	b2 := corruptionSweep(r, c13Either)
 	slots := c13Slots()
 	mustFail := func(w *run.Worker, src, rule string) {
 		c13Either(w, src)
@@ -328,6 +326,9 @@ func c13Main(r *run.Runner) {
 		pr := gen.Print(scale[item])
 		mustCompile(w, pr.Layout(pr.Uniform(" ")).Source, "scale")
 	})
+	// the large enumerations last: the families above must not be starved by the tier deadline
+	b1 := tokenSweeps(r, 3, 4, c13Either)
+	b2 := corruptionSweep(r, c13Either)
 	r.Extra["bounds"] = map[string]any{"scale_programs": len(scale), "token_sequences": b1, "corruptions": b2, "slots": len(slots), "wrappers": len(c13Wrappers(false)), "corpus_programs": len(corpus)}
 	r.Sample(slots[11].build(c13Wrappers(false)[4](callText("iff", 2))))
 	r.Sample(slots[13].build(c13Wrappers(true)[6]("`a`")))
